@@ -121,7 +121,7 @@ Start(th, i, n, a) ==
   /\ name' = [name EXCEPT ![th] = n] /\ ignAtStart' = [ignAtStart EXCEPT ![th] = Ign(n)]
   /\ startedIn' = [startedIn EXCEPT ![th] = k]
   /\ used' = used \cup {i} /\ ops' = ops + 1
-  /\ hist' = Log(<<"start", th, Ign(n), a>>)
+  /\ hist' = Log(<<"start", th, Ign(n), a, n>>)
   /\ UNCHANGED <<k, phase, snap, report, xops, dummyIgn>>
 
 End(th) == /\ phase = "in" /\ st[th] = "alive" /\ ops < MaxOps
@@ -142,7 +142,7 @@ Rename(th, n) == /\ phase = "in" /\ st[th] = "alive" /\ ops < MaxOps /\ xops < M
                  /\ known[th] /\ (RenameSame \/ n # name[th])
                  /\ name' = [name EXCEPT ![th] = n]
                  /\ ops' = ops + 1 /\ xops' = xops + 1
-                 /\ hist' = Log(<<"rename", th, Ign(n)>>)
+                 /\ hist' = Log(<<"rename", th, Ign(n), n>>)
                  /\ UNCHANGED <<k, phase, st, ident, ignAtStart, api, known, startedIn, snap,
                                 report, used, dummyIgn>>
 
